@@ -190,7 +190,12 @@ CAppend(recs) == /\ DoAppend(recs)
                  /\ UNCHANGED <<cc, pend>>
 CAppendSet(recs) == DoAppendSet(recs) /\ now' = ClockAfter(recs) /\ UNCHANGED <<cc, pend>>
 CSetHW(h) == DoSetHW(h) /\ UNCHANGED <<cc, now, pend>>
-CNewLeaderEpoch(e) == DoNewLeaderEpoch(e) /\ UNCHANGED <<cc, now, pend>>
+\* NewLeaderEpoch(e): recorded at NewestOffset() = NextOffset() - 1 of the active
+\* segment (on a log emptied by retention that is base - 1, not -1)
+CNewLeaderEpoch(e) ==
+  /\ epochs' = Assign(epochs, e, NewestOf(log, segs))
+  /\ obs' = [a |-> "NewLeaderEpoch", ret |-> <<>>, err |-> ""]
+  /\ UNCHANGED <<cfg, log, segs, hw, ro, rd, cc, now, pend>>
 \* Persistent readers (reader.go).  A clean does not touch the abstract reader
 \* state: a reader whose segment was replaced by compaction (or removed because
 \* nothing in it survived: cleanupEmptySegment marks it replaced) gets
